@@ -113,12 +113,10 @@ def cases():
             add("xcomplex", "T v=%s(std::move(w))" % part, mk, "P o = xtl::%s(std::move(r)); return o;" % part, "return o;", which)
             add("xcomplex", "owning(std::move(w).real(),std::move(w).imag()).%s" % part, mk,
                 "%s o(std::move(r).real(), std::move(r).imag()); return o;" % O, cacc, which, 2)
-            if clabel == "T&":
-                # the same specialization on other referents: the right-hand wrapper is an rvalue, its referents are not
-                add("xcomplex", "ref-wrapper=std::move(w).%s" % part, mk,
-                    "P y = PVP::mk(5), y2 = PVP::mk(6); { %s w(y, y2); w = std::move(r); } return %s;" % (RT, "y" if which == 0 else "y2"), "return o;", which, 2)
-                add("xcomplex", "ref-wrapper=prvalue-proxy.%s" % part, mk,
-                    "P y = PVP::mk(5), y2 = PVP::mk(6); { %s w(y, y2); w = %s; } return %s;" % (RT, fac, "y" if which == 0 else "y2"), "return o;", which, 2)
+        if clabel == "T&":
+            # the same specialization on other referents: the right-hand WRAPPER is an rvalue, its referents are not (both originals are compared)
+            add("xcomplex", "ref-wrapper=std::move(w)", mk, "P y = PVP::mk(5), y2 = PVP::mk(6); { %s w(y, y2); w = std::move(r); } return y;" % RT, "return o;", 0, 2)
+            add("xcomplex", "ref-wrapper=prvalue-proxy", mk, "P y = PVP::mk(5), y2 = PVP::mk(6); { %s w(y, y2); w = %s; } return y;" % (RT, fac), "return o;", 0, 2)
     ids = set()
     for c in out:
         assert c.id not in ids, c.id
@@ -127,12 +125,22 @@ def cases():
 
 
 # committed: ill-formed on the pinned tree (kind, form) -> reason; applies to both closures unless a closure is named
+_PRIV = "xcomplex::operator= reads the private members of another specialization"
+_NOCONST = "xclosure_wrapper<T>/xclosure_pointer<T> can only be built from a T&& or a T&, not from a const T& (nor from a wrapper converting to one)"
 KNOWN_ILL_FORMED = {
-    ("xcomplex", "owning=std::move(w).real"): "xcomplex::operator=(xcomplex<O...>&&) reads the private members of another specialization",
-    ("xcomplex", "owning=std::move(w).imag"): "xcomplex::operator=(xcomplex<O...>&&) reads the private members of another specialization",
-    ("xcomplex", "owning=w.real"): "xcomplex::operator=(const xcomplex<O...>&) reads the private members of another specialization",
-    ("xcomplex", "owning=w.imag"): "xcomplex::operator=(const xcomplex<O...>&) reads the private members of another specialization",
+    ("xcomplex", "owning=std::move(w).real"): _PRIV,
+    ("xcomplex", "owning=std::move(w).imag"): _PRIV,
+    ("xcomplex", "owning=w.real"): _PRIV,
+    ("xcomplex", "owning=w.imag"): _PRIV,
     ("closure_pointer", "owning(std::move(p))"): "xclosure_pointer<T> has no constructor from another xclosure_pointer",
+    ("proxy_wrapper", "xproxy_wrapper<T>(std::move(w))"): "xproxy_wrapper_impl<T>(T&&) cannot bind the T& a reference wrapper converts to (no copy is made either)",
+    ("closure", "owning(std::move(w))", "const T&"): _NOCONST,
+    ("closure", "owning(w)", "const T&"): _NOCONST,
+    ("closure", "owning(prvalue-wrapper)", "const T&"): _NOCONST,
+    ("proxy_wrapper", "owning(std::move(w))", "const T&"): _NOCONST,
+    ("proxy_wrapper", "owning(w)", "const T&"): _NOCONST,
+    ("proxy_wrapper", "owning(prvalue-wrapper)", "const T&"): _NOCONST,
+    ("closure_pointer", "owning(*std::move(p))", "const T&"): _NOCONST,
 }
 
 
